@@ -1,4 +1,4 @@
-import ProductMD.Proofs.ForestUnique
+import ProductMD.Proofs.ForestDel
 /-!
 # C11 — the variant forest stays consistent and every variant is findable
 
@@ -526,5 +526,196 @@ example : Inv Upar (run Upar 50 [⟨none, 0, none⟩, ⟨some 0, 1, none⟩, ⟨
 example : (run Upar 50 [⟨none, 0, none⟩, ⟨some 0, 1, none⟩, ⟨none, 1, none⟩, ⟨some 2, 1, none⟩]).kids 0 = [(['b'], 1)]
     ∧ (run Upar 50 [⟨none, 0, none⟩, ⟨some 0, 1, none⟩, ⟨none, 1, none⟩, ⟨some 2, 1, none⟩]).top = [(['a'], 0)] := by
   decide +kernel
+
+/-! ## `del container[name]` (`VariantBase.__delitem__`, `Model/ForestDel.lean`)
+
+`del` walks down the dashed name – split at the FIRST dash, no comparison with UIDs (unlike `__getitem__`) – and removes ONE
+dict entry.  It does not reset the removed object's parent pointer and does not touch its children dict. -/
+
+/-- Both invariants survive every `del` – successful or raising, plain or dashed name, any container: the unconditional `InvW`
+and the full `Inv`, the latter with NO hypothesis on the call (every clause of `Inv` is about entries that are present; the
+stale parent pointer of the removed object is outside what `Inv` constrains). -/
+theorem C11_del_inv (U : Nat → Attrs) (s : State) (c : Cont) (name : Str) :
+    (InvW U s → InvW U (delitem s c name).1) ∧ (Inv U s → Inv U (delitem s c name).1) := by
+  rcases delitem_cases s c name with ⟨-, h⟩ | ⟨d, k, v, -, h⟩
+  · rw [h]; exact ⟨id, id⟩
+  · rw [h]; exact ⟨fun hI => hI.erased d k, fun hI => hI.erased d k⟩
+
+/-- A `del` that raises raises `KeyError` – never a recursion or unpacking error – and has changed NOTHING (children dicts
+and parent pointers); a plain name that is no key raises, and so does a dashed name whose first segment is no key. -/
+theorem C11_del_missing_keyerror (s : State) (c : Cont) (name : Str) :
+    (∀ e, (delitem s c name).2 = .error e → e = .keyError ∧ (delitem s c name).1 = s) ∧
+    (dget name (s.kidsOf c) = none → '-' ∉ name → delitem s c name = (s, .error .keyError)) ∧
+    (∀ head tail, name = head ++ '-' :: tail → '-' ∉ head → dget name (s.kidsOf c) = none → dget head (s.kidsOf c) = none →
+      delitem s c name = (s, .error .keyError)) := by
+  refine ⟨?_, ?_, ?_⟩
+  · intro e he
+    rcases delitem_cases s c name with ⟨-, h⟩ | ⟨d, k, v, -, h⟩
+    · rw [h] at he ⊢; cases he; exact ⟨rfl, rfl⟩
+    · rw [h] at he; cases he
+  · intro hn hd
+    unfold delitem
+    rw [delitemF_succ, hn]
+    simp [hd]
+  · intro head tail hname hhead hn hh
+    unfold delitem
+    rw [delitemF_succ, hn, hname, split1_dash head tail hhead, ← hname]
+    have : name.contains '-' = true := by rw [hname]; exact contains_dash head tail
+    rw [this]; simp [hh]
+
+/-- Frame: a successful `del c[name]` designates an entry `k ↦ v` of a dict `d` at or below `c` (`d = c`, `k = name` when
+`name` is a key of `c`) and afterwards that dict is the old one without the entry – same order –, every other dict (the
+removed object's own children dict included, when `some v ≠ d`) and EVERY parent pointer (the removed object's included) are
+what they were. -/
+theorem C11_del_frame (s : State) (c : Cont) (name : Str) (h : (delitem s c name).2 = .ok ()) :
+    ∃ d k v, delResolve s c name = .ok (d, k, v) ∧ dget k (s.kidsOf d) = some v ∧
+      ((d = c ∧ k = name) ∨ ∃ w, d = some w ∧ Desc s c w) ∧
+      (delitem s c name).1.kidsOf d = derase k (s.kidsOf d) ∧
+      (∀ x, x ≠ d → (delitem s c name).1.kidsOf x = s.kidsOf x) ∧
+      (delitem s c name).1.parent = s.parent ∧
+      (∀ k' w, (k', w) ∈ s.kidsOf d → k' ≠ k → (k', w) ∈ (delitem s c name).1.kidsOf d) := by
+  rcases delitem_cases s c name with ⟨-, h'⟩ | ⟨d, k, v, hr, h'⟩
+  · rw [h'] at h; cases h
+  · have hok := delResolveF_ok hr
+    refine ⟨d, k, v, hr, hok.1, hok.2, ?_, ?_, ?_, ?_⟩
+    · rw [h', erased_kidsOf]; simp
+    · intro x hx; rw [h', erased_kidsOf]; simp [hx]
+    · rw [h']; exact erased_parent s d k
+    · intro k' w hm hne; rw [h', erased_kidsOf]; simp only [if_true]; exact mem_derase_of_ne hm hne
+
+/-- After a successful `del` that designated `k ↦ v` in `d`, on a forest satisfying the full `Inv`: `v` sits in no dict any
+more, and neither `v` nor anything below it (its children dict is untouched: `C11_del_frame`) is reachable from the top-level
+container, returned by ANY `get_variants` on it, or returned by ANY lookup `ci[…]`; the key is gone from `d`.
+(`Inv` is needed: under F33 an object may sit in two dicts and `del` removes one entry.) -/
+theorem C11_del_removes_subtree (U : Nat → Attrs) (s : State) (hI : Inv U s) (c : Cont) (name : Str) (d : Cont) (k : Str) (v : Nat)
+    (hr : delResolve s c name = .ok (d, k, v)) :
+    ¬ Placed (delitem s c name).1 v ∧ dget k ((delitem s c name).1.kidsOf d) = none ∧
+    ∀ x, (x = v ∨ Desc (delitem s c name).1 (some v) x) →
+      ¬ Desc (delitem s c name).1 none x ∧
+      (∀ fuel arch types recursive res, getVariants U (delitem s c name).1 fuel none arch types recursive = .ok res → x ∉ res) ∧
+      (∀ nm, getitem U (delitem s c name).1 none nm ≠ .ok x) := by
+  have h' : delitem s c name = (erased s d k, .ok ()) := by
+    rcases delitem_cases s c name with ⟨he, -⟩ | ⟨d', k', v', hr', h'⟩
+    · rw [he] at hr; cases hr
+    · rw [hr'] at hr; cases hr; exact h'
+  have hmem : (k, v) ∈ s.kidsOf d := dget_mem (delResolveF_ok hr).1
+  have hI' : Inv U (erased s d k) := hI.erased d k
+  rw [h']
+  have hnp : ¬ Placed (erased s d k) v := by
+    rintro ⟨x, k', hm⟩
+    have hx : x = d := by
+      have h1 := hI.parent x k' v (erased_sub hm)
+      have h2 := hI.parent d k v hmem
+      rw [h1] at h2; exact h2
+    subst hx
+    rw [erased_kidsOf] at hm
+    simp only [if_true] at hm
+    exact val_not_mem_derase (hI.weak.keys x) (hI.once x) hmem (List.mem_map.mpr ⟨(k', v), hm, rfl⟩)
+  have hnd : ∀ x, (x = v ∨ Desc (erased s d k) (some v) x) → ¬ Desc (erased s d k) none x := by
+    intro x hx htop
+    have hv : Desc (erased s d k) none v := by
+      rcases hx with rfl | hx
+      · exact htop
+      · exact hx.up hI' v rfl htop
+    obtain ⟨d', k', hm, -⟩ := hv.last
+    exact hnp ⟨d', k', hm⟩
+  refine ⟨hnp, ?_, ?_⟩
+  · rw [erased_kidsOf]; simp only [if_true]; exact dget_derase_self (hI.weak.keys d)
+  · intro x hx
+    refine ⟨hnd x hx, ?_, ?_⟩
+    · intro fuel arch types recursive res hres hmem'
+      rcases C11_get_variants_sound U _ hI'.weak fuel none arch types recursive res hres x hmem' with ⟨h1, -⟩ | ⟨h1, -⟩
+      · cases h1
+      · exact hnd x hx h1
+    · intro nm hg
+      exact hnd x hx (getitemF_desc hg)
+
+/-- Every state reachable from the empty forest by ANY history of `add` calls (accepted or refused) and `del` statements
+(successful or raising) satisfies `InvW`. -/
+theorem C11_reachable_with_del (U : Nat → Attrs) (fuel : Nat) (ops : List HOp) : InvW U (hrun U fuel ops) := by
+  unfold hrun
+  suffices h : ∀ s, InvW U s → InvW U (ops.foldl (hstep U fuel) s) from h _ (InvW.empty U)
+  induction ops with
+  | nil => intro s h; exact h
+  | cons o os ih =>
+    intro s h
+    refine ih _ ?_
+    cases o with
+    | add a => exact h.add fuel a.c a.v a.key
+    | del c name => exact (C11_del_inv U s c name).1 h
+
+/-- every `add` of the history satisfies `AddOk` in the state it is made in; nothing is asked of the `del`s -/
+def OkHRun (U : Nat → Attrs) (fuel : Nat) : State → List HOp → Prop
+  | _, [] => True
+  | s, .add a :: os => AddOk U s a.c a.v a.key ∧ OkHRun U fuel (hstep U fuel s (.add a)) os
+  | s, .del c name :: os => OkHRun U fuel (hstep U fuel s (.del c name)) os
+
+/-- …and the full `Inv` when no `add` hands over an object that is filed elsewhere AT THAT MOMENT (the hypothesis of
+`C11_reachable_partial`; F33/F29).  An object removed by `del` is filed nowhere, so it may be re-added anywhere. -/
+theorem C11_reachable_with_del_partial (U : Nat → Attrs) (fuel : Nat) (ops : List HOp)
+    (hf : OkHRun U fuel State.empty ops) : Inv U (hrun U fuel ops) := by
+  unfold hrun
+  have key : ∀ (ops : List HOp) (s : State), Inv U s → OkHRun U fuel s ops → Inv U (ops.foldl (hstep U fuel) s) := by
+    intro ops
+    induction ops with
+    | nil => intro s h _; exact h
+    | cons o os ih =>
+      intro s h hf
+      cases o with
+      | add a => exact ih _ (h.add fuel a.c a.v a.key hf.1) hf.2
+      | del c name => exact ih _ ((C11_del_inv U s c name).2 h) hf
+  exact key ops _ (Inv.empty U) hf
+
+/-! ### witnesses and non-vacuity for `del` -/
+
+/-- F48 (finding): `del` and `__getitem__` resolve a dashed name DIFFERENTLY.  With top-level `ServerTools` (UID `Server-Tools`)
+next to `Server → Tools` (the F14 forest), `ci["Server-Tools"]` is the top-level variant, but `del ci["Server-Tools"]` removes
+the CHILD `Tools` of `Server`; the top-level variant is still there and still what `ci["Server-Tools"]` returns. -/
+theorem C11_del_other_witness :
+    resOf (getitem U14 s14 none "Server-Tools".toList) = some 2 ∧
+    resOf (delResolve s14 none "Server-Tools".toList) = some (some 0, "Tools".toList, 1) ∧
+    outErr (delitem s14 none "Server-Tools".toList).2 = none ∧
+    (delitem s14 none "Server-Tools".toList).1.top = [("Server".toList, 0), ("ServerTools".toList, 2)] ∧
+    (delitem s14 none "Server-Tools".toList).1.kids 0 = [] ∧
+    resOf (getitem U14 (delitem s14 none "Server-Tools".toList).1 none "Server-Tools".toList) = some 2 := by decide +kernel
+
+/-- F48, smallest form: a single top-level variant `ServerTools` with UID `Server-Tools`: `ci["Server-Tools"]` finds it,
+`del ci["Server-Tools"]` raises KeyError. -/
+def U48 := mkU [mkA "ServerTools" "Server-Tools"]
+def s48 := run U48 50 [⟨none, 0, none⟩]
+theorem C11_del_uid_keyerror_witness :
+    s48.top = [("ServerTools".toList, 0)] ∧ resOf (getitem U48 s48 none "Server-Tools".toList) = some 0 ∧
+    outErr (delitem s48 none "Server-Tools".toList).2 = some .keyError := by decide +kernel
+
+/-- F48 in the other direction (with F27): on `A → {A → {C}, C}` the name `A-A-C` is looked up as the sibling `A-C` (object 2) but
+deleted as the real `A-A-C` (object 3). -/
+theorem C11_del_shadow_witness :
+    resOf (getitem U20 s20 none "A-A-C".toList) = some 2 ∧
+    resOf (delResolve s20 none "A-A-C".toList) = some (some 1, "C".toList, 3) := by decide +kernel
+
+/-- The parent pointer of a removed variant is NOT reset (`S → C`, `del S["C"]`: `C.parent` is still `S`, `S` has no children);
+`add` overwrites the pointer before it validates, so the stale value is never validated against: re-adding `C` to `S` is
+accepted and gives back the forest before the `del`; a refused re-add elsewhere (top level: UID does not align) restores the
+STALE pointer. -/
+theorem C11_del_stale_parent_example :
+    outErr (delitem s19 (some 0) "C".toList).2 = none ∧
+    (delitem s19 (some 0) "C".toList).1.kids 0 = [] ∧ (delitem s19 (some 0) "C".toList).1.parent 1 = some 0 ∧
+    outErr (add U19 50 (delitem s19 (some 0) "C".toList).1 (some 0) 1 none).2 = none ∧
+    (add U19 50 (delitem s19 (some 0) "C".toList).1 (some 0) 1 none).1.kids 0 = [("C".toList, 1)] ∧
+    outErr (add U19 50 (delitem s19 (some 0) "C".toList).1 none 1 none).2 = some .valueError ∧
+    (add U19 50 (delitem s19 (some 0) "C".toList).1 none 1 none).1.parent 1 = some 0 := by decide +kernel
+
+/-- `C11_del_removes_subtree` on the example forest `A → B → C`: `del ci["A-B"]` designates `B` in `A`'s dict (hypotheses:
+`ex_inv` and this evaluation), and afterwards `get_variants` on the top returns `A` only, `ci["A-B-C"]` raises. -/
+example : delResolve sEx none "A-B".toList = .ok (some 0, "B".toList, 1) := rfl
+example : ∀ nm, getitem Uex (delitem sEx none "A-B".toList).1 none nm ≠ .ok 2 :=
+  fun nm => ((C11_del_removes_subtree Uex sEx ex_inv none "A-B".toList (some 0) "B".toList 1 rfl).2.2 2
+    (Or.inr (Desc.kid (k := "C".toList) (by decide +kernel)))).2.2 nm
+example : resOf (getVariants Uex (delitem sEx none "A-B".toList).1 50 none none [] true) = some [0] ∧
+    outErr (delitem (delitem sEx none "A-B".toList).1 none "A-B".toList).2 = some .keyError := by decide +kernel
+/-- a history with deletes: add, add, del, re-add, del of a missing name -/
+example : OkHRun Uex 50 State.empty [.add ⟨none, 0, none⟩, .del none "A".toList, .del none "A".toList] := by
+  refine ⟨⟨?_, (fun _ k hk => by cases hk)⟩, trivial⟩
+  rintro c k h; cases c <;> simp [State.kidsOf, State.empty] at h
 
 end PM.Forest
